@@ -513,10 +513,10 @@ class Visitor(
     @bypass(resolve_source)
     def visit_join(self, source: 'dsl.Join') -> None:
         if source.condition is not None:
-            if source.kind is dsl.Join.Kind.INNER:
-                self.context.tables.filter(source.condition)
-            else:
+            if self._outer_joined(source):  # this or any nested join is outer - filtering below would alter null-padding
                 self.context.tables.select(source.condition)
+            else:
+                self.context.tables.filter(source.condition)
         super().visit_join(source)
         right = self.context.symbols.pop()
         left = self.context.symbols.pop()
